@@ -7,6 +7,7 @@
 mod codec;
 mod cpr;
 mod deb;
+mod derive;
 mod docspec;
 mod edit;
 mod lossy;
@@ -52,6 +53,9 @@ fn dispatch(op: &str, args: &[&str]) -> Option<Resp> {
     if let Some(r) = codec::handle(op, args) {
         return Some(r);
     }
+    if let Some(r) = derive::handle(op, args) {
+        return Some(r);
+    }
     if let Some(r) = sat::handle(op, args) {
         return Some(r);
     }
@@ -70,6 +74,7 @@ fn dispatch(op: &str, args: &[&str]) -> Option<Resp> {
 fn generate(prop: &str, tier: &str, seed: u64, out: &mut util::Out) {
     match prop {
         "C12" => sat::generate_c12(tier, seed, out),
+        "C16" => derive::generate_c16(tier, seed, out),
         "C17" => cpr::generate_c17(tier, seed, out),
         "C18" => codec::generate_c18(tier, seed, out),
         "C19" => pgp::generate(tier, seed, out),
